@@ -121,15 +121,19 @@ def flatten(mdl):
                 op = mdl["ops"][et["op"]]
                 ov = e.get("values", {})
                 vs, output, inp = [], None, None
+                bind = e.get("bind") or {}       # further input variables of the edge operator bound to explicit variable paths
                 for name, d in op["vars"].items():
                     vs.append({"name": name, "decl": "input" if d["decl"] == "input" else "other", "value": str(F(ov.get(name, d["value"])))})
                     if d["decl"] == "output":
                         output = name
-                    if d["decl"] == "input":
+                    if d["decl"] == "input" and name not in bind:
                         inp = name
                 epath = f"__edge{len(nodes)}_{len(edges)}"
                 nodes.append({"path": epath, "ops": [{"name": op["name"], "output": output, "vars": vs, "eqs": op["eqs"]}], "is_edge": True})
                 edges.append({"src": src, "tgt": [epath, op["name"], inp], "w": "1"})
+                for bname, bpath in bind.items():
+                    bp = (prefix + bpath).split("/")
+                    edges.append({"src": ["/".join(bp[:-2]), bp[-2], bp[-1]], "tgt": [epath, op["name"], bname], "w": "1"})
                 edges.append({"src": [epath, op["name"], output], "tgt": tgt, "w": str(F(e["w"]))})
             else:
                 ed = {"src": src, "tgt": tgt, "w": str(F(e["w"]))}
@@ -252,6 +256,19 @@ def var_spec(d):
     return v
 
 
+def _edge_bindings(mdl, e):
+    """edge-dictionary entries that bind the inputs of an edge template: the pre-synaptic input to 'source', further inputs to variable paths"""
+    if not e.get("bind"):
+        return {}
+    et = mdl["edge_templates"][e["template"]]
+    op = mdl["ops"][et["op"]]
+    out = {}
+    for name, d in op["vars"].items():
+        if d["decl"] == "input":
+            out[f"{et['name']}/{op['name']}/{name}"] = e["bind"].get(name, "source")
+    return out
+
+
 def build_pyrates(mdl, style=None, rng=None, share_templates=True):
     """Build CircuitTemplate via the Python classes.  Template objects are shared exactly as the MDL ids say."""
     from pyrates import OperatorTemplate, NodeTemplate, CircuitTemplate
@@ -276,7 +293,8 @@ def build_pyrates(mdl, style=None, rng=None, share_templates=True):
         edges = [(e["src"], e["tgt"], ets[e["template"]] if e.get("template") else None,
                   dict({"weight": float(F(e["w"]))}, **({"delay": float(F(e["delay"]))} if e.get("delay") is not None else {}),
                        **({"spread": float(F(e["spread"]))} if e.get("spread") is not None else {}),
-                       **{f"{mdl['ops'][mdl['edge_templates'][e['template']]['op']]['name']}/{k}": float(F(v)) for k, v in (e.get("values") or {}).items()}))
+                       **{f"{mdl['ops'][mdl['edge_templates'][e['template']]['op']]['name']}/{k}": float(F(v)) for k, v in (e.get("values") or {}).items()},
+                       **_edge_bindings(mdl, e)))
                  for e in circ.get("edges", [])]
         if circ.get("circuits"):
             subs = {label: mk(sub) for label, sub in circ["circuits"].items()}
